@@ -1,6 +1,7 @@
 package rules
 
 import (
+	"go/token"
 	"strings"
 
 	. "abverif/internal/engine"
@@ -31,7 +32,7 @@ func (c *Ctx) familyPairing() {
 	sess := "session"
 	cook := "cookie"
 	// setState: switch on ctxKey -> append to matching queue
-	ss := c.P.Func("ab.setState")
+	ss := c.queueFunc()
 	n := 0
 	for _, b := range ss.Blocks {
 		for _, in := range b.Instrs {
@@ -62,49 +63,42 @@ func (c *Ctx) familyPairing() {
 		}
 	}
 	r.Check(n == 2, "C11.family", FuncName(ss), "two queues", c.P.Pos(ss.Pos()), "both families handled", sprintf("expected 2 queue appends, found %d", n))
-	// the event appended carries the op, key and (for puts) value given
-	// public wrappers pass their family
-	for _, w := range []struct{ fn, fam, via string }{
-		{"ab.PutSession", sess, "ab.putState"}, {"ab.DelSession", sess, "ab.delState"}, {"ab.DelAllSession", sess, "ab.delAllState"}, {"ab.GetSession", sess, "ab.getState"},
-		{"ab.PutCookie", cook, "ab.putState"}, {"ab.DelCookie", cook, "ab.delState"}, {"ab.GetCookie", cook, "ab.getState"},
+	// public wrappers: what each of them queues, summarised through whatever
+	// helpers lie between it and the queue (constant arguments are propagated
+	// into the helpers' guards, so the decomposition does not matter)
+	for _, w := range []struct{ fn, fam, kind string }{
+		{"ab.PutSession", sess, "ClientStateEventPut"}, {"ab.DelSession", sess, "ClientStateEventDel"}, {"ab.DelAllSession", sess, "ClientStateEventDelAll"},
+		{"ab.PutCookie", cook, "ClientStateEventPut"}, {"ab.DelCookie", cook, "ClientStateEventDel"},
 	} {
 		fn := c.P.Func(w.fn)
-		ok := false
-		pos := c.P.Pos(fn.Pos())
-		for _, call := range CallsTo(fn, w.via) {
-			pos = posf(c, call)
-			if k, isC := constArgStr(call, 1); isC && k == w.fam {
-				// remaining arguments passed through in order
-				pass := true
-				args := call.Common().Args
-				for i := 2; i < len(args); i++ {
-					if p, isP := args[i].(*ssa.Parameter); !isP || paramIndex(p) != i-1 {
-						pass = false
-					}
-				}
-				if p, isP := args[0].(*ssa.Parameter); !isP || paramIndex(p) != 0 {
-					pass = false
-				}
-				ok = pass
+		effs, why := c.queueEffects(fn)
+		want := c.P.ConstInt("", w.kind)
+		ok := len(effs) > 0 && why == ""
+		detail := why
+		for _, e := range effs {
+			if e.queue != w.fam+"StateEvents" {
+				ok = false
+				detail = "queues into " + e.queue
+			}
+			if !e.kindKnown || e.kind != want {
+				ok = false
+				detail = sprintf("records event kind %d (known=%v), expected %s", e.kind, e.kindKnown, w.kind)
+			}
+			if !e.keyOwn {
+				ok = false
+				detail = "the event's key is not the wrapper's own key argument"
 			}
 		}
-		r.Check(ok, "C11.family", w.fn, w.via+"("+w.fam+")", pos, "passes its own family key and its arguments through", w.fn+" does not forward to "+w.via+" with the "+w.fam+" key and its own arguments")
+		if len(effs) == 0 && detail == "" {
+			detail = "queues nothing"
+		}
+		r.Check(ok, "C11.family", w.fn, "queues "+w.kind+" into the "+w.fam+" queue", c.P.Pos(fn.Pos()), "one event of its own kind, key and family", w.fn+" does not queue exactly its own kind of event, for its own key, into the "+w.fam+" queue: "+detail)
 	}
-	// put/del/delAll -> setState with the right kind
-	for _, w := range []struct {
-		fn   string
-		kind string
-	}{{"ab.putState", "ClientStateEventPut"}, {"ab.delState", "ClientStateEventDel"}, {"ab.delAllState", "ClientStateEventDelAll"}} {
+	for _, w := range []struct{ fn, fam string }{{"ab.GetSession", sess}, {"ab.GetCookie", cook}} {
 		fn := c.P.Func(w.fn)
-		ok := false
-		for _, call := range CallsTo(fn, "ab.setState") {
-			k, isC := ConstInt(Arg(call, 2))
-			_, keyP := Arg(call, 1).(*ssa.Parameter)
-			if isC && k == c.P.ConstInt("", w.kind) && keyP {
-				ok = true
-			}
-		}
-		r.Check(ok, "C11.family", w.fn, "setState("+w.kind+")", c.P.Pos(fn.Pos()), "records the matching event kind for the caller's family", w.fn+" does not record "+w.kind+" for the caller's family")
+		keys, why := c.ctxKeysRead(fn)
+		ok := len(keys) == 1 && keys[0] == w.fam && why == ""
+		r.Check(ok, "C11.family", w.fn, "reads the "+w.fam+" state", c.P.Pos(fn.Pos()), "reads the state loaded for its own family", sprintf("%s reads context state %v %s", w.fn, keys, why))
 	}
 	// LoadClientState: session store -> sessionState field + CTXKeySessionState
 	lcs := c.P.Func("(*ab.Authboss).LoadClientState")
@@ -146,19 +140,6 @@ func (c *Ctx) familyPairing() {
 		okSrc := rc != nil && want != "" && hasField(c.fieldOrigins(rc.Common().Value), want)
 		r.Check(okSrc, "C11.family", FuncName(lcs), "ctx["+k+"]", posf(c, call), "request sees the state read from the matching store", "context key "+k+" is bound to the other family's state")
 	}
-	// getState reads the context key it is given
-	gs := c.P.Func("ab.getState")
-	okGet := false
-	for _, call := range CallsTo(gs, fnCtxValue) {
-		a := Arg(call, 0)
-		if mi, ok := a.(*ssa.MakeInterface); ok {
-			a = mi.X
-		}
-		if _, isP := a.(*ssa.Parameter); isP {
-			okGet = true
-		}
-	}
-	r.Check(okGet, "C11.family", FuncName(gs), "ctx.Value(ctxKey)", c.P.Pos(gs.Pos()), "reads the family it is asked for", "getState does not read the context key it is given")
 }
 
 func (c *Ctx) stateKeyInstallers() {
@@ -242,7 +223,7 @@ func (c *Ctx) unwrapShape() {
 // before the first byte, exactly once, whatever the status code or body.
 func (c *Ctx) flushDiscipline() {
 	r := c.R
-	put := c.P.Func("(*ab.ClientStateResponseWriter).putClientState")
+	put := c.flushFunc()
 	flushers := map[string]bool{}
 	// the latch lives in the writer object the handler chain shares: a method
 	// that flushes must act on that object, not on a copy of it
@@ -400,4 +381,179 @@ func (c *Ctx) flushDiscipline() {
 			}
 		}
 	}
+}
+
+type queueEffect struct {
+	queue     string
+	kind      int64
+	kindKnown bool
+	keyOwn    bool
+}
+
+// bindArg resolves an argument under the caller's bindings: constants stay,
+// bound parameters are replaced by what they are bound to.
+func bindArg(a ssa.Value, bind map[*ssa.Parameter]ssa.Value) ssa.Value {
+	for {
+		switch x := a.(type) {
+		case *ssa.ChangeType:
+			a = x.X
+			continue
+		case *ssa.Convert:
+			a = x.X
+			continue
+		case *ssa.MakeInterface:
+			a = x.X
+			continue
+		}
+		break
+	}
+	if p, ok := a.(*ssa.Parameter); ok {
+		if b, ok := bind[p]; ok {
+			return b
+		}
+	}
+	return a
+}
+
+// queueEffects summarises which event queue(s) entry appends to, with which
+// event kind and key, following static calls into repository helpers with the
+// arguments bound (depth 3).
+func (c *Ctx) queueEffects(entry *ssa.Function) ([]queueEffect, string) {
+	var out []queueEffect
+	why := ""
+	own := map[ssa.Value]bool{}
+	for _, p := range entry.Params {
+		own[p] = true
+	}
+	var walk func(f *ssa.Function, bind map[*ssa.Parameter]ssa.Value, depth int)
+	walk = func(f *ssa.Function, bind map[*ssa.Parameter]ssa.Value, depth int) {
+		if depth > 3 {
+			why = "helper chain too deep"
+			return
+		}
+		// event fields written in f
+		var kindV, keyV ssa.Value
+		for _, b := range f.Blocks {
+			for _, in := range b.Instrs {
+				st, ok := in.(*ssa.Store)
+				if !ok {
+					continue
+				}
+				fa, ok := st.Addr.(*ssa.FieldAddr)
+				if !ok || !strings.HasSuffix(derefType(fa.X.Type()).String(), ".ClientStateEvent") {
+					continue
+				}
+				switch fieldName(fa) {
+				case "Kind":
+					kindV = bindArg(st.Val, bind)
+				case "Key":
+					keyV = bindArg(st.Val, bind)
+				}
+			}
+		}
+		for _, b := range f.Blocks {
+			for _, in := range b.Instrs {
+				switch x := in.(type) {
+				case *ssa.Store:
+					fa, ok := x.Addr.(*ssa.FieldAddr)
+					if !ok {
+						continue
+					}
+					fld := fieldName(fa)
+					if fld != "sessionStateEvents" && fld != "cookieStateEvents" {
+						continue
+					}
+					feasible := true
+					for _, fct := range FactsAtInstr(x) {
+						rel := fct.Rel()
+						if rel.Op != token.EQL && rel.Op != token.NEQ {
+							continue
+						}
+						p, isP := rel.X.(*ssa.Parameter)
+						s, isC := ConstStr(rel.Y)
+						if !isP || !isC {
+							continue
+						}
+						if bs, ok := ConstStr(bindArg(p, bind)); ok && (bs == s) != (rel.Op == token.EQL) {
+							feasible = false
+						}
+					}
+					if !feasible {
+						continue
+					}
+					e := queueEffect{queue: fld}
+					if kindV != nil {
+						e.kind, e.kindKnown = ConstInt(kindV)
+					}
+					if keyV != nil {
+						kv := keyV
+						if jc, _ := CallOf(kv); jc != nil && Callee(jc) == "strings.Join" && !own[kv] {
+							kv = bindArg(Arg(jc, 0), bind)
+						}
+						e.keyOwn = own[kv]
+					}
+					out = append(out, e)
+				case *ssa.Call:
+					g := StaticCallee(x)
+					if g == nil || !c.inRepo(g) || g.Pkg != entry.Pkg || g == f {
+						continue
+					}
+					nb := map[*ssa.Parameter]ssa.Value{}
+					for i, p := range g.Params {
+						if i < len(x.Call.Args) {
+							a := bindArg(x.Call.Args[i], bind)
+							// the whitelist joined into the delete-all key is still the caller's own argument
+							if jc, _ := CallOf(a); jc != nil && Callee(jc) == "strings.Join" && own[bindArg(Arg(jc, 0), bind)] {
+								own[a] = true
+							}
+							nb[p] = a
+						}
+					}
+					walk(g, nb, depth+1)
+				}
+			}
+		}
+	}
+	walk(entry, map[*ssa.Parameter]ssa.Value{}, 0)
+	return out, why
+}
+
+// ctxKeysRead lists the constant context keys entry (through its helpers)
+// reads client state from.
+func (c *Ctx) ctxKeysRead(entry *ssa.Function) ([]string, string) {
+	seen := map[string]bool{}
+	why := ""
+	var walk func(f *ssa.Function, bind map[*ssa.Parameter]ssa.Value, depth int)
+	walk = func(f *ssa.Function, bind map[*ssa.Parameter]ssa.Value, depth int) {
+		if depth > 3 {
+			return
+		}
+		for _, call := range Calls(f) {
+			if Callee(call) == fnCtxValue {
+				if k, ok := ConstStr(bindArg(Arg(call, 0), bind)); ok {
+					seen[k] = true
+				} else {
+					why = "(a context key that is not a constant)"
+				}
+				continue
+			}
+			cc, isCall := call.(*ssa.Call)
+			if !isCall {
+				continue
+			}
+			g := StaticCallee(call)
+			if g == nil || !c.inRepo(g) || g.Pkg != entry.Pkg || g == f {
+				continue
+			}
+			nb := map[*ssa.Parameter]ssa.Value{}
+			for i, p := range g.Params {
+				if i < len(cc.Call.Args) {
+					nb[p] = bindArg(cc.Call.Args[i], bind)
+				}
+			}
+			walk(g, nb, depth+1)
+		}
+	}
+	walk(entry, map[*ssa.Parameter]ssa.Value{}, 0)
+	return sortedKeys(seen), why
 }
